@@ -246,7 +246,8 @@ def describe(tier, seed):
 def report_exec(rep, cfg, ctx, out, force=None):
     outcome, df, canon = out
     nontrivial = bool(force) or ctx.deviations > 0
-    rep.case((cfg, tuple(ctx.choices), force), nontrivial=nontrivial, outcome=outcome)
+    kinds_ = "+".join(sorted({p[0].split("@")[0] for p, c in zip(ctx.points, ctx.choices) if c != p[2]})) or ("forced" if force else "default")
+    rep.case((cfg, tuple(ctx.choices), force), nontrivial=nontrivial, outcome=(outcome + ":" + kinds_) if outcome == "ok" else outcome)
     if outcome == "skip":
         return
     if outcome != "ok":
